@@ -29,6 +29,9 @@ type c07Case struct {
 	// chain
 	Len   int  `json:"len,omitempty"`
 	Cycle bool `json:"cycle,omitempty"`
+	// Twice: every layout of the chain uses `content` twice (a chain that does not end then
+	// doubles its content on every lap)
+	Twice bool `json:"twice,omitempty"`
 	// Names: how the layouts of a chain are named: "" = l1, l2 ...; num = 1, 2 ... (YAML reads the
 	// front-matter value as a number); bool = the first layout is called "true"
 	Names string `json:"names,omitempty"`
@@ -190,12 +193,20 @@ func (c *c07Case) Run(ctx *core.Ctx) {
 				}
 			}
 			files["layouts/"+lname(i)+".vuego"] = c07Layout(fmt.Sprintf("l%d", i), next, "")
+			if c.Twice {
+				files["layouts/"+lname(i)+".vuego"] = strings.Replace(files["layouts/"+lname(i)+".vuego"], `<section v-html="content"></section>`, `<section v-html="content"></section><aside v-html="content"></aside><p>some more text that is repeated on every lap of the chain</p>`, 1)
+			}
 		}
 		if c.Len == 1 {
 			files[page] = `<i id="page">P</i>`
 			if c.Cycle {
 				files[page] = "---\nlayout: ../page\n---\n" + `<i id="page">P</i>`
 			}
+		}
+		if c.Names == "selfbase" {
+			// the default layout itself rendered as a page: it names no layout, so it is wrapped in itself, once
+			page = "layouts/base.vuego"
+			files = Files{page: c07Layout("lb", "none", "")}
 		}
 		switch {
 		case c.Cycle:
@@ -205,13 +216,21 @@ func (c *c07Case) Run(ctx *core.Ctx) {
 		case c.Len == 100:
 			either = true
 		}
-		if !wantErr {
+		if c.Names == "selfbase" {
+			want = []string{"lb", "lb"}
+		} else if !wantErr {
 			for i := c.Len - 1; i >= 1; i-- {
 				want = append(want, fmt.Sprintf("l%d", i))
 			}
 			want = append(want, "page")
 		}
 		trig = fmt.Sprintf("len=%d/cycle=%v", c.Len, c.Cycle)
+		if c.Twice {
+			trig += "/content-twice"
+		}
+		if c.Names == "selfbase" {
+			trig = "base-layout-as-page"
+		}
 	case "content":
 		fill = map[string]any{"f": false, "t": true}
 		var inner []string
@@ -362,7 +381,7 @@ func init() {
 		ID:        "C07",
 		Level:     "exploration",
 		CPUBudget: 20,
-		Rule: "all layout graphs over {page (root or pages/), layouts/a, layouts/b, layouts/base (absent or present), pages/a (relative twin)} where every file's layout key ranges over {none, a, b, base, self, missing} and the page's is given by front-matter or Fill, on engines built with NewFS(fs), New(WithFS(fs)) and NewFS(decoy, WithFS(fs)) (decoy differing in the presence of layouts/base.vuego); straight chains and cycles of chosen lengths incl. 98..101, also with layouts named by numbers and booleans (YAML types the front-matter value); every subset of {page fm, a fm, b fm, Fill} defining key k; every chain of 1..3 layouts where each link uses `content` in one of 7 ways (wraps it, passes it bare, hides it behind a false / true v-if, ignores it, uses it twice, prints it escaped) x page body {one element, nothing, two elements}. " +
+		Rule: "all layout graphs over {page (root or pages/), layouts/a, layouts/b, layouts/base (absent or present), pages/a (relative twin)} where every file's layout key ranges over {none, a, b, base, self, missing} and the page's is given by front-matter or Fill, on engines built with NewFS(fs), New(WithFS(fs)) and NewFS(decoy, WithFS(fs)) (decoy differing in the presence of layouts/base.vuego); straight chains and cycles of chosen lengths incl. 98..101, cycles whose layouts use the content twice (the content doubles on every lap), the default layout itself rendered as a page, also with layouts named by numbers and booleans (YAML types the front-matter value); every subset of {page fm, a fm, b fm, Fill} defining key k; every chain of 1..3 layouts where each link uses `content` in one of 7 ways (wraps it, passes it bare, hides it behind a false / true v-if, ignores it, uses it twice, prints it escaped) x page body {one element, nothing, two elements}. " +
 			"oracle: reference resolver (relative-then-layouts/, default rule, limit 100) gives the nesting order with each marker once, or error with nothing written. non-trivial = all",
 		Bounds:      map[string]string{"quick": "all graphs over <=5 files; chains 1,2,3,5,98,99,100,101,150; cycles 1,2,3,7", "thorough": "same plus chains up to 300"},
 		Assumptions: []string{"a chain of exactly 100 links is accepted either way"},
@@ -407,6 +426,10 @@ func init() {
 			for _, n := range []int{1, 2, 3, 7} {
 				emit(&c07Case{Part: "chain", Len: n, Cycle: true})
 			}
+			for _, n := range []int{2, 3, 4} {
+				emit(&c07Case{Part: "chain", Len: n, Cycle: true, Twice: true})
+			}
+			emit(&c07Case{Part: "chain", Len: 1, Names: "selfbase"})
 			for _, names := range []string{"num", "bool"} {
 				for _, n := range []int{2, 3, 5} {
 					emit(&c07Case{Part: "chain", Len: n, Names: names})
